@@ -29,6 +29,10 @@ pub enum Ev {
     Time { c: f64 },
     /// constant (never crosses; used as step counter)
     Const { v: f64 },
+    /// 2^k * g: an exact rescaling (same zero set, same signs) unless it under- or overflows
+    Scaled { k: i32, g: Box<Ev> },
+    /// 1.5 + sin(omega*(t-t0)): strictly positive, no root
+    Pos { omega: f64, t0: f64 },
 }
 
 impl Ev {
@@ -45,8 +49,32 @@ impl Ev {
             Ev::SinT { omega, t0, c, i } => (omega * (t - t0)).sin() - c * y[*i % y.len()],
             Ev::Time { c } => t - c,
             Ev::Const { v } => *v,
+            Ev::Scaled { k, g } => ldexp(g.g(t, y), *k),
+            Ev::Pos { omega, t0 } => 1.5 + (omega * (t - t0)).sin(),
         }
     }
+    /// the function without its power-of-two factor
+    pub fn unscaled(&self) -> &Ev {
+        match self {
+            Ev::Scaled { g, .. } => g.unscaled(),
+            other => other,
+        }
+    }
+}
+
+/// x * 2^k without intermediate overflow (k in -2200..2200)
+pub fn ldexp(x: f64, k: i32) -> f64 {
+    let mut x = x;
+    let mut k = k;
+    while k > 1000 {
+        x *= f64::from_bits(((1000 + 1023) as u64) << 52);
+        k -= 1000;
+    }
+    while k < -1000 {
+        x *= f64::from_bits(((-1000 + 1023) as u64) << 52);
+        k += 1000;
+    }
+    x * f64::from_bits(((k + 1023) as u64) << 52)
 }
 
 #[derive(Serialize, Deserialize, Clone, Debug)]
